@@ -8,7 +8,7 @@
    examples and the correspondence check. *)
 From Coq Require Import ZArith String List Bool Lia.
 From Verif Require Import C17.Model C17.Spec C17.Mputil C17.Proofs C17.ProofsOpts C17.ProofsGeom
-     C17.ProofsRoute C17.ProofsJoin C17.ProofsArea C17.ProofsCarry C17.ProofsGeoEq C17.Examples C17.ProofsWitness.
+     C17.ProofsRoute C17.ProofsJoin C17.ProofsArea C17.ProofsCarry C17.ProofsGeoEq C17.ProofsDup C17.Examples C17.ProofsWitness.
 From Verif Require C18.Model C18.Spec C18.Proofs C18.Api Geo.Model.
 From VerifGen Require Import GenTags.
 Import ListNotations.
@@ -34,6 +34,36 @@ Theorem C17_at_most_one_feature_refuted :
   exists d, ids_unique d /\ ~ NoDup (map fkey (convert Mputil.join Mputil.ring_of o0 d)).
 Proof. exact at_most_one_feature_refuted. Qed.
 Print Assumptions C17_at_most_one_feature_refuted.
+
+(* the finding, exactly.  [adopts d r] (C17/ProofsDup.v) decides on the input alone which way an
+   old-style multipolygon relation takes the identity of: multipolygon/boundary, no interesting own
+   tag, exactly one way member with role "outer", that way in the data (or annotated on the
+   member) with resolvable coordinates forming a valid ring.  The way-typed features of the
+   relation pass are exactly the adopted ways, in order; and — for any Ring function that returns
+   a single segment's line in one of the two directions, as mputil's does — the feature keys are
+   pairwise different IF AND ONLY IF no way is adopted twice.  So the known-finding class
+   (harness: inKnownClass = not NoDup of the adopted ways) is exact, not an over-approximation. *)
+Theorem C17_adopted_ways_exact : forall join ring_of, ring_single ring_of -> forall o d,
+  way_keys (rel_features join ring_of o d) = flat_map (adopts d) (relations d).
+Proof. exact adopted_ways_exact. Qed.
+Print Assumptions C17_adopted_ways_exact.
+
+Theorem C17_duplicate_feature_iff : forall join ring_of, ring_single ring_of -> forall o d,
+  ids_unique d ->
+  (NoDup (map fkey (convert join ring_of o d)) <-> NoDup (flat_map (adopts d) (relations d))).
+Proof. exact duplicate_feature_iff. Qed.
+Print Assumptions C17_duplicate_feature_iff.
+
+Theorem C17_duplicate_feature_iff_exec : forall o d,
+  ids_unique d ->
+  (NoDup (map fkey (convert Mputil.join Mputil.ring_of o d)) <-> NoDup (flat_map (adopts d) (relations d))).
+Proof. exact (duplicate_feature_iff Mputil.join Mputil.ring_of ring_single_exec). Qed.
+Print Assumptions C17_duplicate_feature_iff_exec.
+
+Example C17_adopts_nonvacuous :
+  flat_map (adopts d_shared) (relations d_shared) = [10; 10] /\
+  flat_map (adopts d_rich) (relations d_rich) = [].
+Proof. vm_compute. split; reflexivity. Qed.
 
 (* non-vacuity: d_rich meets both hypotheses and converts to nine features *)
 Example C17_at_most_one_nonvacuous :
